@@ -14,7 +14,7 @@ Pv(p) == <<2, 3, 5, 7, 11>>[p]
 UnitAt(p) == << <<Q(3,5), Q(4,5)>>, CJ1, <<Q(5,13), Q(-12,13)>>, C1, <<Q(-4,5), Q(3,5)>> >>[p]
 QuarterAt(p) == << CJ1, C1, CNeg(CJ1), CNeg(C1), CJ1 >>[p]      \* phases of periodic sources: quarter turns (u^n stays small)
 AllKinds == <<"R","G","Z","Y","C","L","LP","LD","SC","DV","DVR","AV1","AVR1","AV2","DI","DIG","AI1","AIG1","AI2","CV","CI",
-              "PVr","PVt","PVs","PIr","PVRr","PV10","AV03","PIs">>
+              "PVr","PVt","PVs","PIr","PVRr","PV10","AV03","PIs","Ra","La","Ca","Rb","Lb","Cb">>
 KindNo(k) == CHOOSE i \in 1..Len(AllKinds) : AllKinds[i] = k
 
 CompOf(k, p, n1, n2) ==
@@ -47,6 +47,13 @@ CompOf(k, p, n1, n2) ==
     [] k = "PV10" -> Comp("periodic_voltage_source", id, n1, n2, [wave |-> "rect", V |-> RI(p + 1), w |-> Q(1,10), u |-> QuarterAt(p), R |-> R0])
     [] k = "AV03" -> Comp("ac_voltage_source", id, n1, n2, [V |-> RI(p + 2), R |-> R0, w |-> Q(3,10), u |-> UnitAt(p + 1)])
     [] k = "PIs" -> Comp("periodic_current_source", id, n1, n2, [wave |-> "saw", I |-> RI(p), w |-> R1, u |-> QuarterAt(p), G |-> Q(1, p + 1)])
+    \* designed families with Gaussian-rational complex poles: s^2 + 2 s + 5
+    [] k = "Ra"  -> Comp("resistor", id, n1, n2, [R |-> RI(2)])
+    [] k = "La"  -> Comp("inductance", id, n1, n2, [L |-> RI(1)])
+    [] k = "Ca"  -> Comp("capacitor", id, n1, n2, [C |-> Q(1, 5)])
+    [] k = "Rb"  -> Comp("resistor", id, n1, n2, [R |-> Q(1, 2)])
+    [] k = "Lb"  -> Comp("inductance", id, n1, n2, [L |-> Q(1, 5)])
+    [] k = "Cb"  -> Comp("capacitor", id, n1, n2, [C |-> RI(1)])
     [] k = "PIr" -> Comp("periodic_current_source", id, n1, n2, [wave |-> "rect", I |-> RI(p), w |-> RI(2), u |-> QuarterAt(p + 1), G |-> R0])
 
 Code(n1, n2, k) == (n1 * MaxN + n2) * 32 + KindNo(k)
